@@ -1,0 +1,35 @@
+//go:build verif
+
+// Contracts for the verification harness in /verif (comment-only; this file
+// contains no executable code and is compiled only with the verif tag).
+
+package localfs
+
+// ---- C20: QID path encoding ------------------------------------------------
+//
+// The three *LikelyBits package variables are assigned only by their
+// initialisers.
+//@ constglobal devMajorLikelyBits = 12 [C20]
+//@ constglobal devMinorLikelyBits = 12 [C20]
+//@ constglobal inodeLikelyBits = 39 [C20]
+//
+// Linux dev_t layout (glibc gnu_dev_major/minor), written independently of
+// x/sys/unix:
+//@ define specMajor(dev uint64) uint64 = ((dev >> 8) & 0xfff) | ((dev >> 32) & 0xfffff000)
+//@ define specMinor(dev uint64) uint64 = (dev & 0xff) | ((dev >> 12) & 0xffffff00)
+//@ define likelyOK(dev uint64, ino uint64) bool = ino < (1<<39) && dev < (1<<32) && specMajor(dev) <= 0xfff && specMinor(dev) <= 0xfff
+//@ define likelyEnc(dev uint64, ino uint64) uint64 = ino | (specMinor(dev) << 39) | (specMajor(dev) << 51)
+//
+//@ inline nOnes
+//
+//@ func encodeLikely
+//@   ensures[C20] @ok result1 == likelyOK(dev, ino)
+//@   ensures[C20] @enc result1 ==> result0 == likelyEnc(dev, ino)
+//@   ensures[C20] @zero !result1 ==> result0 == 0
+//@   nopanic
+//
+// Distinct likely (dev, ino) pairs get distinct paths, and a likely path never
+// has bit 63 set (the fallback allocator only hands out paths with bit 63).
+//@ lemma encodeLikelyInjective
+//@   lemma[C20] @injective forall(d1, uint64, forall(i1, uint64, forall(d2, uint64, forall(i2, uint64, likelyOK(d1, i1) && likelyOK(d2, i2) && likelyEnc(d1, i1) == likelyEnc(d2, i2) ==> d1 == d2 && i1 == i2))))
+//@   lemma[C20] @bit63-clear forall(d, uint64, forall(i, uint64, likelyOK(d, i) ==> likelyEnc(d, i) < (1<<63)))
